@@ -17,6 +17,7 @@ import ast
 
 from sa import asdl
 from sa import core
+from sa import pat
 from sa import pycfg
 from sa import setalg
 from sa.formula import atom, implies, equivalent, TRUE
@@ -175,19 +176,22 @@ def check(model, rep, tier):
       tail = cur.orelse
       break
 
+  qv, qb = pat.first(ts.node, '_Q_ = anno.getanno(%s, anno.Basic.QN)' % ts.params()[0])
+  qn = qb['_Q_'] if qb else 'qn'
+
   def sets_in(body):
     uncond, aug = set(), set()
     for s in body:
       if isinstance(s, ast.Expr) and isinstance(s.value, ast.Call):
         f = core.norm(s.value.func)
         if f.startswith('self.scope.') and f.endswith('.add') and \
-            core.norm(s.value.args[0]) == 'qn':
+            core.norm(s.value.args[0]) == qn:
           uncond.add(f.split('.')[2])
       if isinstance(s, ast.If) and core.norm(s.test) == 'self._in_aug_assign':
         for x in s.body:
           if isinstance(x, ast.Expr) and isinstance(x.value, ast.Call):
             f = core.norm(x.value.func)
-            if f.startswith('self.scope.') and core.norm(x.value.args[0]) == 'qn':
+            if f.startswith('self.scope.') and core.norm(x.value.args[0]) == qn:
               aug.add(f.split('.')[2])
     return uncond, aug
 
@@ -293,9 +297,6 @@ def check(model, rep, tier):
       return m[t]
     if t.startswith('self.parent.') and t.count('.') == 2:
       return 'P.' + t.split('.')[2]
-    if t.startswith('enclosing_scope.'):
-      return {'read': 'READ', 'bound': 'BOUND', 'nonlocals': 'NONLOCALS'}.get(
-          t.split('.')[1])
     return None
 
   ev = setalg.Ev(model, fin, at)
@@ -340,8 +341,15 @@ def check(model, rep, tier):
             'writes inside a nested function must not count as writes of the '
             'enclosing scope', {'counterexample': cex}, line=fin.node.lineno)
   fv = sc.methods.get('free_vars')
-  ev2 = setalg.Ev(model, fv, at)
-  v = ev2.merge_returns(ev2.run({'enclosing_scope': setalg.Opaque('e')})[0])
+  al = setalg.single_assignment_aliases(fv.node)
+
+  def at_fv(e):
+    t = setalg.alias_text(e, al)
+    return {'self.enclosing_scope.read': 'READ', 'self.enclosing_scope.bound': 'BOUND',
+            'self.enclosing_scope.nonlocals': 'NONLOCALS'}.get(t)
+
+  ev2 = setalg.Ev(model, fv, at_fv)
+  v = ev2.merge_returns(ev2.run({})[0])
   ok = isinstance(v, setalg.SetV)
   cex = None
   if ok:
